@@ -5,7 +5,8 @@
    Bytes are Z in [0,256).  A segment is a list of bytes, a message a list of segments
    (kept general on purpose: the builder properties reuse marshal/unmarshal).
    Go's uint32/uint64/int32 arithmetic is written with explicit wrap where the code computes
-   in that type.  `int` is 64 bit.  No proofs in this file. *)
+   in that type, with ONE exception stated at [demux_arena] (int(maxSeg+1) for maxSeg = 2^32-1,
+   which needs >= 16 GiB of input).  `int` is 64 bit.  No proofs in this file. *)
 From Coq Require Export List ZArith Bool Lia.
 From CV Require Export Packed.Packed.   (* byte_ok, bytes_ok, zeros, rerr (EOF | UnexpectedEOF) *)
 Export ListNotations.
@@ -136,6 +137,11 @@ Fixpoint demux_loop (n : nat) (hb : list Z) (i : Z) (data : list Z) : res (list 
       Ok (firstn (Z.to_nat sz) data :: r)
   end.
 
+(* NOT modelled: message.go computes the table length as int(maxSeg+1) with maxSeg a uint32, so for
+   maxSeg = 2^32-1 it wraps to 0 and Go's demuxArena returns 0 segments; this definition iterates
+   m+1 = 2^32 times.  Only Unmarshal can get there, with a header of >= 16 GiB (Decode stops at 512
+   segments); for such inputs the Unmarshal theorems are about this definition, not about the code
+   (listed under ASSUMPTIONS in props/C14.py, observation O3 in docs/C14.md). *)
 Definition demux_arena (hb data : list Z) : res (list (list Z)) :=
   do m <- max_segment hb;
   demux_loop (Z.to_nat (m + 1)) hb 0 data.
@@ -156,8 +162,12 @@ Definition unmarshal (data : list Z) : res (list (list Z)) :=
       if total >? len rest then Err EShortData
       else demux_arena hb rest.
 
-(* bytes Unmarshal allocates besides the constant-size Message: the [][]byte of demuxArena.
-   Nothing is copied. *)
+(* A DECLARED COST FUNCTION, not an allocation log (unlike Decode, whose model logs every make):
+   the only allocation of Unmarshal besides the constant-size Message is demuxArena's [][]byte,
+   24 bytes per returned segment; nothing is copied.  It is computed from the RESULT: 0 when
+   Unmarshal fails (by inspection of the code demuxArena is reached only when every earlier check
+   passed and cannot fail after totalSize succeeded -- this is a comment, not a lemma).  So
+   C14_unmarshal_alloc_linear says "24 * number of returned segments <= 6 * len data". *)
 Definition unmarshal_alloc (data : list Z) : Z :=
   match unmarshal data with
   | Ok segs => slice_header_bytes * len segs
@@ -210,8 +220,9 @@ Fixpoint encode_sizes (aligned : bool) (segs : list (list Z)) : res unit :=
   | [] => Ok tt
   | s :: r =>
     let n := len s in
-    if n >? max_segment_size then Err ESegTooLarge
-    else if aligned && negb (n mod word_size =? 0) then Err EUnaligned
+    (* message.go (repaired): the alignment test comes first, then n > maxSegmentSize *)
+    if aligned && negb (n mod word_size =? 0) then Err EUnaligned
+    else if n >? max_segment_size then Err ESegTooLarge
     else encode_sizes aligned r
   end.
 
